@@ -1,8 +1,9 @@
 (* C20 - input checks reject exactly the invalid inputs, and only while switched on.
-   model/Checks.v: hand model of checks._checkState and of the numpy.allclose predicates with the code's tolerances; tied to the package by
-   assignment/call histories (search harness). *)
+   model/Checks.v: hand model of checks._checkState and of the numpy.allclose predicates with the code's tolerances.  Tie: gen/Gen_checks.v is regenerated on every
+   run from the AST of xfab/checks.py (predicates, tolerances, setter) and of the guard sites in tools.py / laue.py / symmetry.py (vlib/checksgen.py, fail closed);
+   the C20_source_* theorems state that the generated definitions are the model's; the call histories of the search harness exercise the same sixteen sites. *)
 From Coq Require Import Reals List Bool.
-From XV Require Import RealLib Mat3 Checks P20 P20_near.
+From XV Require Import RealLib Mat3 Checks Gen_checks P20 P20_near P20_tie.
 Import ListNotations.
 Open Scope R_scope.
 
@@ -40,3 +41,26 @@ Print Assumptions C20_rejects_far_diag.
 Theorem C20_rejects_far_offdiag : forall U, Rabs (m01 (mmul (mtrans U) U)) > 1 / 1000000 -> ~ check_rotation U.
 Proof. exact rejects_far_offdiag. Qed.
 Print Assumptions C20_rejects_far_offdiag.
+
+(* the model is what the source says on this run *)
+Theorem C20_source_rotation_check : forall U, gen_check_rotation U <-> check_rotation U.
+Proof. exact gen_check_rotation_iff. Qed.
+Print Assumptions C20_source_rotation_check.
+Theorem C20_source_euler_check : forall p1 P p2, gen_check_euler p1 P p2 <-> check_euler p1 P p2.
+Proof. exact gen_check_euler_iff. Qed.
+Print Assumptions C20_source_euler_check.
+Theorem C20_source_ubi_check : forall A, gen_check_ubi A <-> check_ubi A.
+Proof. exact gen_check_ubi_iff. Qed.
+Print Assumptions C20_source_ubi_check.
+Theorem C20_source_switch : forall vs, fold_left (fun s v => fst (gen_assign s v)) vs gen_initial_state = last_valid vs true.
+Proof. exact gen_switch_last_valid. Qed.
+Print Assumptions C20_source_switch.
+Theorem C20_source_guard_sites : gen_guard_sites = expected_guard_sites.
+Proof. exact guard_sites_as_expected. Qed.
+Print Assumptions C20_source_guard_sites.
+Theorem C20_source_accepts_near_rotations : forall U E, is_rot U -> small E (1 / 10000000) -> gen_check_rotation (madd U E).
+Proof. exact gen_accepts_near. Qed.
+Print Assumptions C20_source_accepts_near_rotations.
+Theorem C20_source_rejects_far_offdiag : forall U, Rabs (m01 (mmul (mtrans U) U)) > 1 / 1000000 -> ~ gen_check_rotation U.
+Proof. exact gen_rejects_far_offdiag. Qed.
+Print Assumptions C20_source_rejects_far_offdiag.
